@@ -43,7 +43,13 @@ def uniquetrees(paths):
     if not paths:
         return []
 
-    paths = [(i, [(isinstance(i.root, InstallRoot), i.root.value)] + i.split())
+    def split(path):
+        # The root of an absolute path (`/`, `C:/`) splits with a trailing
+        # empty component; drop it so that it's a prefix of all its children.
+        bits = path.split()
+        return bits[:-1] if len(bits) > 1 and bits[-1] == '' else bits
+
+    paths = [(i, [(isinstance(i.root, InstallRoot), i.root.value)] + split(i))
              for i in paths]
     paths.sort(key=lambda i: i[1])
     piter = iter(paths)
